@@ -149,11 +149,11 @@ def make_grid(rng, name, force=None):
     return gc
 
 
-def request_for(rng, gc, aligned=None):
+def request_for(rng, gc, aligned=None, level=None):
     """A request (bbox, size) in the grid SRS whose resolution is a dyadic multiple of a level resolution, so that
     get_resolution and closest_level compute exactly.  Returns (bbox, size, kind)."""
     nlev = len(gc.res)
-    l = rng.randrange(nlev)
+    l = rng.randrange(nlev) if level is None else level
     r = float(gc.res[l])
     kind = aligned or rng.choice(['tile', 'tiles', 'shifted', 'shifted', 'scaled', 'scaled', 'edge', 'outside', 'big'])
     nx, ny = gc.grid_size(l)
@@ -706,6 +706,12 @@ def pure_axis(ctx, T):
         if st != 'ok':
             continue
         wire = (dy(rng, -90, 0), dy(rng, -180, -100), dy(rng, 1, 90), dy(rng, 100, 180))
+        if rng.random() < 0.6:
+            # full double precision (deep zoom levels of geographic grids need all of it): the text written into the
+            # request must denote exactly the double that was given
+            x0, y0 = rng.uniform(-80, 0), rng.uniform(-170, -100)
+            d = rng.choice([1e-7, 3e-6, 1e-3, 1.0]) * rng.uniform(1, 9)
+            wire = (x0, y0, x0 + d * 256, y0 + d * 256)
         srs_key_c = 'crs' if cvn.endswith('130') else 'srs'
         vparam = {'V100': ('wmtver', '1.0.0'), 'V110': ('version', '1.1.0')}.get(cvn, ('version', '1.3.0' if cvn.endswith('130') else '1.1.1'))
         param = {'bbox': ','.join(str(v) for v in wire), srs_key_c: code, 'layers': 'a', 'width': '10', 'height': '10',
@@ -745,12 +751,115 @@ def pure_axis(ctx, T):
             ctx.fail('axis-upstream', 'client bbox %r (%s) is sent upstream as %r (%s), SRS %s' % (wire, cvn, up, uvn, code), desc)
 
 
+def pure_client(ctx, T):
+    """WMSClient._query_req / WMSInfoClient._query_url: the request built for one query is not changed by building
+    the request for the next one (the client object of a source is shared by all requests and threads), and it carries
+    exactly the bbox / size / srs of the query"""
+    from urllib.parse import parse_qsl
+    from mapproxy.client.wms import WMSClient
+    from mapproxy.layer import MapQuery
+    from mapproxy.request.wms import WMS111MapRequest, WMS130MapRequest
+    from mapproxy.srs import SRS
+    rng = ctx.rng
+    for _ in range(ctx.n(30, 150)):
+        cls = rng.choice([WMS111MapRequest, WMS130MapRequest])
+        code = rng.choice(['EPSG:3857', 'EPSG:4326', 'EPSG:25832'])
+        client = WMSClient(cls(url='http://up/service?', param={'layers': 'a'}))
+        qs = []
+        for k in range(2):
+            x0, y0 = rng.uniform(-80, 80), rng.uniform(-80, 80)
+            d = rng.choice([1e-7, 1e-3, 1.0, 100.0]) * rng.uniform(1, 9)
+            size = rng.choice([(256, 256), (512, 300), (100, 700)])
+            qs.append(MapQuery((x0, y0, x0 + d * size[0], y0 + d * size[1]), size, SRS(code), 'png'))
+        st, reqs = call(lambda: [client._query_req(q, 'image/png') for q in qs])
+        ctx.case(('client', cls.__name__, code, qs[0].bbox, qs[1].bbox), True)
+        if st != 'ok':
+            ctx.fail('client-raises', 'WMSClient._query_req raised %r' % (reqs,), {'bbox': qs[0].bbox})
+            continue
+        ne = bool(SRS(code).is_axis_order_ne) and cls is WMS130MapRequest
+        for q, req in zip(qs, reqs):
+            args = dict((k.lower(), v) for k, v in parse_qsl(req.complete_url.split('?', 1)[1], keep_blank_values=True))
+            b = tuple(float(v) for v in args['bbox'].split(','))
+            if ne:
+                b = (b[1], b[0], b[3], b[2])
+            desc = {'request_class': cls.__name__, 'srs': code, 'queries': [(x.bbox, x.size) for x in qs], 'url': req.complete_url}
+            if b != tuple(q.bbox) or (int(args['width']), int(args['height'])) != tuple(q.size):
+                ctx.fail('client-request-not-for-query', 'the upstream request built for bbox %r size %r carries bbox %r size %sx%s '
+                         '(after the request for the next query was built): requests share state' % (q.bbox, q.size, b, args['width'], args['height']), desc)
+                break
+        tmpl = client.request_template.params
+        if tmpl.get('bbox') is not None or 'width' in tmpl:
+            ctx.fail('client-template-modified', 'WMSClient wrote the bbox / size of a query into its shared request template',
+                     {'request_class': cls.__name__, 'template': dict(tmpl.iteritems())})
+
+
+def pure_info_pos(ctx, T):
+    """pixel position of GetFeatureInfo through the request classes of all versions (X/Y vs I/J), NE and EN SRS"""
+    from mapproxy.request.wms import (WMS100FeatureInfoRequest, WMS110FeatureInfoRequest, WMS111FeatureInfoRequest,
+                                      WMS130FeatureInfoRequest)
+    from mapproxy.srs import SRS
+    from urllib.parse import parse_qsl
+    rng = ctx.rng
+    V = {'V100': WMS100FeatureInfoRequest, 'V110': WMS110FeatureInfoRequest, 'V111': WMS111FeatureInfoRequest,
+         'V130': WMS130FeatureInfoRequest}
+    codes = ['EPSG:4326', 'EPSG:3857', 'CRS:84', 'EPSG:31467', 'EPSG:25832', 'EPSG:4258']
+    combos = [(c, u, code) for c in sorted(V) for u in sorted(V) for code in codes]
+    rng.shuffle(combos)
+    for cv, uv, code in combos[:ctx.n(96, 96)]:
+        ne = bool(SRS(code).is_axis_order_ne)
+        pos = (rng.randrange(0, 500), rng.randrange(0, 500))
+        while pos[0] == pos[1]:
+            pos = (rng.randrange(0, 500), rng.randrange(0, 500))
+        wire = (dy(rng, -90, 0), dy(rng, -180, -100), dy(rng, 1, 90), dy(rng, 100, 180))
+        pk = ('i', 'j') if cv == 'V130' else ('x', 'y')
+        vparam = {'V100': ('wmtver', '1.0.0'), 'V110': ('version', '1.1.0'), 'V111': ('version', '1.1.1'), 'V130': ('version', '1.3.0')}[cv]
+        param = {'bbox': ','.join(str(v) for v in wire), ('crs' if cv == 'V130' else 'srs'): code, 'layers': 'a', 'query_layers': 'a',
+                 'width': '500', 'height': '500', 'format': 'image/png', 'styles': '', vparam[0]: vparam[1],
+                 'request': 'feature_info' if cv == 'V100' else 'GetFeatureInfo', pk[0]: str(pos[0]), pk[1]: str(pos[1])}
+        st, creq = call(lambda: V[cv](param=param, url='http://c/?'))
+        if st != 'ok':
+            ctx.fail('infopos-raises', 'request class %s raised %r' % (cv, creq), {'param': param})
+            continue
+        st, internal = call(lambda: creq.params.pos)
+        internal_bbox = creq.params.bbox
+
+        def build():
+            # the way WMSInfoClient._query_url fills the request template
+            req = V[uv](url='http://up/service?', param={'layers': 'x'})
+            req.params.bbox = internal_bbox
+            req.params.size = (500, 500)
+            req.params.pos = internal
+            req.params['query_layers'] = 'x'
+            req.params.format = 'image/png'
+            req.params.srs = code
+            return req.complete_url
+        st2, url = call(build)
+        if st != 'ok' or st2 != 'ok':
+            ctx.fail('infopos-raises', 'feature info request %s -> %s raised %r / %r' % (cv, uv, internal, url), {'param': param})
+            continue
+        args = dict((k.lower(), v) for k, v in parse_qsl(url.split('?', 1)[1], keep_blank_values=True))
+        keys = ('i', 'j') if uv == 'V130' else ('x', 'y')
+        other = ('x', 'y') if uv == 'V130' else ('i', 'j')
+        desc = {'client': cv, 'upstream': uv, 'srs': code, 'axis_order_ne': ne, 'client_pos': pos, 'internal_pos': internal, 'upstream_url': url}
+        if keys[0] not in args or keys[1] not in args or other[0] in args or other[1] in args:
+            ctx.fail('infopos-params', 'upstream %s feature info request carries the wrong position parameters: %s' % (uv, url), desc)
+            continue
+        up_pos = (int(args[keys[0]]), int(args[keys[1]]))
+        T.add('infopos', '(%s, %s, %s, %s, %s, %s)' % (cv, uv, blit(ne), zz(pos), zz(internal), zz(up_pos)), desc)
+        ctx.case(('infopos', cv, uv, code, pos), True, desc if len(ctx.samples) < 6 else None)
+        ctx.count('infopos:%s->%s,%s' % (cv, uv, 'ne' if ne else 'en'))
+        # oracle (OGC WMS): I/X is the column, J/Y the row, for every CRS
+        if tuple(internal) != pos or up_pos != pos:
+            ctx.fail('infopos-changed', 'feature info position %r (%s, %s) is held as %r and sent upstream as %r (%s)' % (pos, cv, code, internal, up_pos, uv), desc)
+
+
 def run_pure(ctx, T):
     rng = ctx.rng
     grids = [make_grid(rng, 'g%d' % i) for i in range(ctx.n(10, 60))]
     steps = [('mosaic', lambda: pure_mosaic(ctx, T, grids)), ('meta', lambda: pure_meta(ctx, T, grids)),
              ('lin', lambda: pure_lin(ctx, T)), ('subextent', lambda: pure_subextent(ctx, T)),
-             ('transform', lambda: pure_transform(ctx, T)), ('info', lambda: pure_info(ctx, T)), ('axis', lambda: pure_axis(ctx, T))]
+             ('transform', lambda: pure_transform(ctx, T)), ('info', lambda: pure_info(ctx, T)), ('axis', lambda: pure_axis(ctx, T)),
+             ('infopos', lambda: pure_info_pos(ctx, T)), ('client', lambda: pure_client(ctx, T))]
     for name, f in steps:
         try:
             f()
@@ -764,6 +873,16 @@ def correspond(ctx, T, grid_defs):
     QDEFS = 'From Coq Require Import QArith.\nLocal Open Scope Z_scope.\n'
     defs = QDEFS + '\n'.join(grid_defs)
     I = 'Grid Geo'
+    ctx.corr_check('scaled_tile_sources', I, 'grid * bbox * bbox * Z * bbox * Z * Z * list bool', T.get('scaled')[0],
+                   "fun c => let '(g, cov, b, sl, oab, onx, ony, omask) := c in "
+                   "match scaled_tile_sources g (avail_in_coverage g cov) b sl with "
+                   "| Affected ab nx ny ts => bbox_eqb ab oab && (nx =? onx) && (ny =? ony) && list_eqb Bool.eqb (present_mask ts) omask "
+                   "| InvalidBBOX => false end",
+                   lambda i: T.get('scaled')[1][i], defs=defs, shard=150)
+    ctx.corr_check('featureinfo_position', I, 'wms_version * wms_version * bool * (Z * Z) * (Z * Z) * (Z * Z)', T.get('infopos')[0],
+                   "fun c => let '(cv, uv, ne, wire, internal, up) := c in "
+                   "zz_eqb (info_pos_to_111 cv ne wire) internal && zz_eqb (info_pos_to_version uv ne internal) up",
+                   lambda i: T.get('infopos')[1][i], defs=QDEFS)
     ctx.corr_check('e2e_upstream_wms_requests', I, '(grid * bbox * Z * Z) * Z * Z * Z * list (bbox * (Z * Z))', T.get('e2e_wms')[0],
                    "fun c => let '((g, b, sx, sy), mx, my, buf, obs) := c in "
                    "match cache_map_plan g b sx sy with "
@@ -1082,6 +1201,30 @@ def e2e_conf(rng, gc, kind):
         conf['layers'][0]['sources'] = ['src']
         conf['sources']['src']['coverage'] = {'bbox': b, 'srs': code}
         info['coverage'] = b
+    elif kind in ('downscale', 'upscale'):
+        # tiles of one level are built from the neighbouring level (TileManager._scaled_tile); the source only delivers
+        # the neighbouring level and only inside a coverage, so that some source tiles are missing
+        nlev = len(gc.res)
+        b = [float(v) for v in gc.bbox]
+        w, h = b[2] - b[0], b[3] - b[1]
+        cov = [b[0] + math.floor(w * rng.choice([0.125, 0.25, 0.3, 0.4]) * 8) / 8, b[1] + math.floor(h * rng.choice([0.125, 0.25, 0.3]) * 8) / 8,
+               b[2] - math.floor(w * rng.choice([0.125, 0.25, 0.3]) * 8) / 8, b[3] - math.floor(h * rng.choice([0.125, 0.2, 0.4]) * 8) / 8]
+        conf['sources']['src']['coverage'] = {'bbox': cov, 'srs': code}
+        if kind == 'downscale':
+            src_level = rng.randrange(1, nlev)
+            conf['sources']['src']['min_res'] = float(gc.res[src_level]) * 1.01   # margin: clipped meta tiles have slightly non-square pixels
+            conf['caches']['c1']['downscale_tiles'] = 1
+            info['request_level'] = src_level - 1
+        else:
+            src_level = rng.randrange(0, nlev - 1)
+            conf['sources']['src']['max_res'] = float(gc.res[src_level]) * 0.99
+            conf['caches']['c1']['upscale_tiles'] = 1
+            info['request_level'] = src_level + 1
+        if rng.random() < 0.6:
+            conf['caches']['c1']['meta_size'] = [1, 1]
+            conf['caches']['c1']['meta_buffer'] = 0
+            info['meta_size'], info['meta_buffer'] = [1, 1], 0
+        info.update({'extent': cov, 'coverage': cov, 'src_level': src_level})
     elif kind == 'cascade':
         g2 = dict(grid_yaml(gc))
         g2['origin'] = 'ul' if gc.conf['origin'] in ('ll', 'sw') else 'll'
@@ -1090,6 +1233,58 @@ def e2e_conf(rng, gc, kind):
         conf['caches']['c2'] = {'grids': ['g2'], 'sources': ['c1'], 'format': 'image/png', 'meta_size': [1, 1], 'meta_buffer': 0}
         conf['layers'][0]['sources'] = ['c2']
     return conf, info
+
+
+SCALED = []
+
+
+def scaled_cases(ctx, T, gc, info, conf, url, number):
+    """what TileManager._scaled_tile handed to TiledImage (recorded) against the model scaled_tile_sources, and the
+    property oracle: one entry per cell of the mosaic, every present source tile belongs to its cell"""
+    cov = [frac(v) for v in info['coverage']]
+    for rec in SCALED:
+        gx, gy = rec['tile_grid']
+        sb = [frac(v) for v in rec['src_bbox']]
+        rep = {'conf': conf, 'request': url, 'request_number': number, 'scaled_tile': rec}
+        sl = None
+        for l, r in enumerate(gc.res):
+            if (sb[2] - sb[0]) == gx * gc.tw * r:
+                sl = l
+        ctx.case(('scaled', gc.name, rec['req_bbox'], rec['src_bbox'], tuple(rec['mask']), number), True,
+                 {'fn': '_scaled_tile', 'grid': gc.conf, 'tile_bbox': rec['req_bbox'], 'src_bbox': rec['src_bbox'], 'tile_grid': rec['tile_grid'],
+                  'present': rec['mask']} if len(ctx.samples) < 6 else None)
+        if len(rec['mask']) != gx * gy:
+            ctx.fail('scaled:list-length', 'rescaled tile %r: %d source entries for a %dx%d mosaic (missing tiles must keep their cell)'
+                     % (rec['req_bbox'], len(rec['mask']), gx, gy), rep)
+            continue
+        if sl is None or not gc.can_scale(*rec['req_bbox']) or not gc.can_scale(*rec['src_bbox']):
+            continue
+        # exact expectation: cell (i, j) from the top left shows the source tile whose rectangle is that cell
+        r = gc.res[sl]
+        nx, ny = gc.grid_size(sl)
+        sens = False
+        for k, present in enumerate(rec['mask']):
+            cx, cy = k % gx, k // gx
+            rect = (sb[0] + cx * gc.tw * r, sb[3] - (cy + 1) * gc.th * r, sb[0] + (cx + 1) * gc.tw * r, sb[3] - cy * gc.th * r)
+            tx = (rect[0] - gc.bbox[0]) / (r * gc.tw)
+            ty = ((gc.bbox[3] - rect[3]) if gc.ul else (rect[1] - gc.bbox[1])) / (r * gc.th)
+            in_grid = tx.denominator == 1 and ty.denominator == 1 and 0 <= tx < nx and 0 <= ty < ny
+            ix = min(rect[2], cov[2]) - max(rect[0], cov[0])
+            iy = min(rect[3], cov[3]) - max(rect[1], cov[1])
+            meets = ix > 0 and iy > 0
+            if meets and (ix < 2 * r or iy < 2 * r):
+                sens = True    # a sliver of less than two pixels: bbox_position_in_image may give it size 0
+            # with meta tiles a source tile outside the coverage is created together with its meta tile
+            plain = info['meta_size'] == [1, 1] and info['meta_buffer'] == 0
+            if present and not (in_grid and (meets or not plain)):
+                ctx.fail('scaled:wrong-cell', 'rescaled tile %r: cell %d of the source mosaic holds a tile although no creatable tile lies there'
+                         % (rec['req_bbox'], k), rep)
+                break
+        if sens or info['meta_size'] != [1, 1] or info['meta_buffer'] != 0:
+            ctx.count('scaled:model_comparison_skipped')
+            continue
+        T.add('scaled', '(%s, %s, %s, %d, %s, %d, %d, %s)' % (gc.name, gc.zbbox(info['coverage']), gc.zbbox(rec['req_bbox']), sl,
+                                                             gc.zbbox(rec['src_bbox']), gx, gy, llit(rec['mask'], blit)), rep)
 
 
 def e2e_same_srs(ctx, T, grids_defs):
@@ -1101,13 +1296,23 @@ def e2e_same_srs(ctx, T, grids_defs):
     orig_open = http.HTTPClient.open
     http.HTTPClient.open = lambda self, url, data=None, method=None: up.open(url, data, method)
     worst_all = 0.0
+    import mapproxy.cache.tile as cache_tile
+    orig_ti = cache_tile.TiledImage
+
+    class RecTiledImage(orig_ti):
+        # TileManager._scaled_tile is the only user of TiledImage inside mapproxy.cache.tile
+        def transform(self, req_bbox, req_srs, out_size, image_opts):
+            SCALED.append({'src_bbox': tuple(self.src_bbox), 'tile_grid': tuple(self.tile_grid), 'mask': [t is not None for t in self.tiles],
+                           'req_bbox': tuple(req_bbox)})
+            return orig_ti.transform(self, req_bbox, req_srs, out_size, image_opts)
+    cache_tile.TiledImage = RecTiledImage
     try:
-        nconf = ctx.n(14, 70)
-        kinds = ['wms', 'wms', 'tiles', 'coverage', 'direct', 'cascade', 'wms']
+        nconf = ctx.n(18, 80)
+        kinds = ['wms', 'downscale', 'tiles', 'coverage', 'direct', 'cascade', 'upscale', 'wms', 'downscale']
         for ci in range(nconf):
             kind = kinds[ci % len(kinds)]
             force = {}
-            if rng.random() < 0.3:
+            if rng.random() < 0.3 and kind not in ('downscale', 'upscale'):
                 force['srs'] = 'EPSG:4326'   # axis order ne; coordinates are just numbers for a same-SRS pipeline
             gc = make_grid(rng, 'e%d' % ci, force)
             if force.get('srs') == 'EPSG:4326' and (abs(float(gc.bbox[0])) > 1e7):
@@ -1124,7 +1329,10 @@ def e2e_same_srs(ctx, T, grids_defs):
             up.tile_grids = {'g1': (gc, info.get('tile_origin_nw', False))}
             ctx.count('e2e:config=' + kind)
             for ri in range(ctx.n(6, 12)):
-                bbox, size, rkind = request_for(rng, gc)
+                if kind in ('downscale', 'upscale'):
+                    bbox, size, rkind = request_for(rng, gc, aligned=rng.choice(['tile', 'tiles', 'tiles', 'shifted', 'edge']), level=info['request_level'])
+                else:
+                    bbox, size, rkind = request_for(rng, gc)
                 if size[0] * size[1] > 400000 or not gc.can_scale(*bbox):
                     continue
                 version = rng.choice(['1.1.1', '1.3.0'])
@@ -1138,6 +1346,7 @@ def e2e_same_srs(ctx, T, grids_defs):
                     ctx.fail('e2e:config', 'make_wsgi_app failed for a valid configuration: %r' % (e,), {'conf': conf})
                     break
                 url = wms_url(version, 'lyr', bbox, size, code, ne)
+                SCALED.clear()
                 rep = {'conf': conf, 'request': url, 'bbox': bbox, 'size': size, 'client_version': version}
                 if info['meta_buffer'] > 0 and kind != 'tiles':
                     rep['duplicate_meta_bbox'] = duplicate_meta_bbox(gc, info, bbox, size)
@@ -1178,10 +1387,20 @@ def e2e_same_srs(ctx, T, grids_defs):
                 # stages that each may displace content by less than one pixel (always towards the upper left):
                 # clipping at the source coverage, clipping of the request at the layer extent, truncation of the meta
                 # buffer at a grid bbox edge that is not on the pixel lattice of the level; a cascade resamples twice
-                stages = (1 if 'coverage' in info else 0) + (0 if inside_ else 1) + (1 if info['meta_buffer'] > 0 else 0) + (2 if kind == 'cascade' else 0)
-                worst = pixel_oracle(ctx, up, resp.body, bbox, size, up_res, info['extent'], None, rep, 'e2e:' + kind, tol_px=1.5, stages=stages)
+                stages = (1 if 'coverage' in info else 0) + (0 if inside_ else 1) + (1 if info['meta_buffer'] > 0 else 0) + (2 if kind == 'cascade' else 0) + (1 if kind in ('downscale', 'upscale') else 0)
+                must_extent = info['extent']
+                cov_ = info.get('coverage') or gb_
+                in_cov_ = cov_[0] <= bbox[0] and cov_[1] <= bbox[1] and bbox[2] <= cov_[2] and bbox[3] <= cov_[3]
+                if kind in ('downscale', 'upscale') and not (inside_ and in_cov_):
+                    # (the layer extent of a cache is the coverage of its source)
+                    # cutting the request down to the layer extent changes its resolution and may select a level that is more
+                    # than one rescale step away from what the source delivers: content is not guaranteed there
+                    must_extent = None
+                worst = pixel_oracle(ctx, up, resp.body, bbox, size, up_res, must_extent, None, rep, 'e2e:' + kind, tol_px=1.5, stages=stages)
                 if worst is not None:
                     worst_all = max(worst_all, worst)
+                if kind in ('downscale', 'upscale'):
+                    scaled_cases(ctx, T, gc, info, conf, url, 1)
                 # upstream requests vs the model (empty cache, same SRS, no coverage clipping)
                 gb = [float(v) for v in gc.bbox]
                 contained = gb[0] <= bbox[0] and gb[1] <= bbox[1] and bbox[2] <= gb[2] and bbox[3] <= gb[3]
@@ -1204,6 +1423,18 @@ def e2e_same_srs(ctx, T, grids_defs):
                             return (x, y, z)
                         obs = llit(sorted(internal(r['tile']) for r in tiles), coord_lit)
                         T.add('e2e_tiles', '(%s, %s)' % (plan, obs), {'conf': conf, 'request': url, 'upstream_tiles': [r['tile'] for r in tiles]})
+                if kind in ('downscale', 'upscale'):
+                    # partially filled cache: the source tiles inside the coverage are stored now, the others are neither
+                    # cached nor creatable; the same request again (and once more) must show the same content at the same place
+                    for again in (2, 3):
+                        SCALED.clear()
+                        resp2 = app.get(url, expect_errors=True)
+                        if resp2.status_int != 200:
+                            ctx.fail('e2e:error-response', 'request %d of the same map: status %s' % (again, resp2.status), rep)
+                            break
+                        pixel_oracle(ctx, up, resp2.body, bbox, size, up_res, must_extent, None, dict(rep, request_number=again), 'e2e:' + kind, tol_px=1.5, stages=stages)
+                        scaled_cases(ctx, T, gc, info, conf, url, again)
+                    ctx.count('e2e:rescaled_tiles_recorded', len(SCALED))
                 # second request: served from the cache, must be the same picture, no new upstream request
                 if kind in ('wms', 'tiles', 'coverage') and ri % 2 == 0:
                     n0 = len(up.requests)
@@ -1225,6 +1456,7 @@ def e2e_same_srs(ctx, T, grids_defs):
                     single_tile_oracle(ctx, app, d, gc, bbox, size, url, resp, rep)
     finally:
         http.HTTPClient.open = orig_open
+        cache_tile.TiledImage = orig_ti
     ctx.distribution['e2e:worst_error_output_px_x1000'] = int(worst_all * 1000)
 
 
@@ -1271,8 +1503,9 @@ def e2e_featureinfo(ctx, T, grid_defs):
     orig_open = http.HTTPClient.open
     http.HTTPClient.open = lambda self, url, data=None, method=None: up.open(url, data, method)
     try:
-        for ci in range(ctx.n(6, 30)):
-            force = {'srs': rng.choice(['EPSG:3857', 'EPSG:4326', 'EPSG:25832'])}
+        for ci in range(ctx.n(8, 32)):
+            # every combination of (NE / EN axis order) x (upstream 1.1.1 / 1.3.0) in every run
+            force = {'srs': ['EPSG:4326', 'EPSG:3857', 'EPSG:4326', 'EPSG:25832'][ci % 4]}
             if ci % 2 == 0:
                 force['origin'] = rng.choice(['ll', 'sw'])
             gc = make_grid(rng, 'f%d' % ci, force)
@@ -1281,6 +1514,9 @@ def e2e_featureinfo(ctx, T, grid_defs):
             wmts_ok = gc.grid.supports_access_with_origin('nw')
             conf, info = e2e_conf(rng, gc, 'wms')
             conf['layers'][0]['sources'] = ['c1']
+            upv = ['1.3.0', '1.3.0', '1.1.1', '1.1.1', '1.1.1', '1.3.0'][ci % 6]
+            conf['sources']['src']['wms_opts']['version'] = upv
+            info['upstream_version'] = upv
             try:
                 app, d = build_app(ctx, conf)
             except Exception as e:  # noqa
@@ -1384,8 +1620,9 @@ def e2e_reprojected(ctx):
     to3857 = pyproj.Transformer.from_crs('EPSG:4326', 'EPSG:3857', always_xy=True)
     worst_all = 0.0
     try:
-        for ci in range(ctx.n(4, 16)):
-            variant = ['request-4326-on-3857-cache', 'source-4326-for-3857-cache', 'request-3857-on-4326-cache', 'direct-source-4326'][ci % 4]
+        for ci in range(ctx.n(5, 20)):
+            variant = ['request-4326-on-3857-cache', 'source-4326-for-3857-cache', 'request-3857-on-4326-cache', 'direct-source-4326',
+                       'deep-zoom-4326-cache'][ci % 5]
             origin = rng.choice(['ll', 'ul'])
             ms = rng.choice([[1, 1], [2, 2], [4, 4]])
             buf = rng.choice([0, 20])
@@ -1394,6 +1631,11 @@ def e2e_reprojected(ctx):
                 grid = {'srs': 'EPSG:4326', 'bbox': [-180, -90, 180, 90], 'origin': origin, 'tile_size': [256, 256],
                         'res': [0.703125 / 2 ** k for k in range(10)]}
                 gsrs, rsrs = 'EPSG:4326', 'EPSG:3857'
+            elif variant == 'deep-zoom-4326-cache':
+                # centimetre resolutions in degrees: every digit of the coordinates matters
+                grid = {'srs': 'EPSG:4326', 'bbox': [-180, -90, 180, 90], 'origin': origin, 'tile_size': [256, 256],
+                        'res': [0.703125 / 2 ** k for k in range(25)]}
+                gsrs, rsrs = 'EPSG:4326', 'EPSG:4326'
             else:
                 m = 20037508.342789244
                 grid = {'srs': 'EPSG:3857', 'bbox': [-m, -m, m, m], 'origin': origin, 'tile_size': [256, 256],
@@ -1424,7 +1666,17 @@ def e2e_reprojected(ctx):
                 # a request somewhere in Europe / North America, a few hundred metres to a few hundred km wide
                 lon, lat = rng.uniform(-120, 40), rng.uniform(-55, 65)
                 size = rng.choice([(256, 256), (300, 200), (400, 400)])
-                if rsrs == 'EPSG:4326':
+                if variant == 'deep-zoom-4326-cache':
+                    lvl = rng.choice([21, 22, 23, 24])
+                    rdeg = 0.703125 / 2 ** lvl * rng.choice([1.0, 1.0, 0.8, 1.3])
+                    if rng.random() < 0.5:
+                        # exactly one tile of the level
+                        rdeg = 0.703125 / 2 ** lvl
+                        size = (256, 256)
+                        lon = -180 + math.floor((lon + 180) / (rdeg * 256)) * rdeg * 256
+                        lat = -90 + math.floor((lat + 90) / (rdeg * 256)) * rdeg * 256
+                    bbox = (lon, lat, lon + size[0] * rdeg, lat + size[1] * rdeg)
+                elif rsrs == 'EPSG:4326':
                     rdeg = rng.choice([0.0001, 0.001, 0.01, 0.05])
                     bbox = (lon, lat, lon + size[0] * rdeg, lat + size[1] * rdeg)
                     out_res_up = None
@@ -1472,7 +1724,7 @@ def e2e_reprojected(ctx):
                 up_res = max(max((r['bbox'][2] - r['bbox'][0]) / r['size'][0], (r['bbox'][3] - r['bbox'][1]) / r['size'][1]) for r in maps)
                 # the mesh approximation may deviate by up to one pixel by design (max_px_err); a source-side reprojection
                 # is followed by a second resampling from the cache level to the output
-                stages = {'source-4326-for-3857-cache': 2}.get(variant, 1) + (1 if buf else 0)
+                stages = {'source-4326-for-3857-cache': 2, 'deep-zoom-4326-cache': 0}.get(variant, 1) + (1 if buf else 0)
                 worst = pixel_oracle(ctx, up, resp.body, bbox, size, up_res, None, to_up, rep, 'e2e:' + variant, tol_px=1.5,
                                      stages=stages)
                 if worst is not None:
